@@ -875,15 +875,652 @@ pub mod convert {
     }
 }
 
+// ===========================================================================
+// LARGE-SCALE sub-checks (C15/large-*): list lengths, positions of the maximum, numbers of ln(0)
+// entries / of ties, and integration grids across the threshold ladder (255 .. 2^20+1, tails up to
+// ~10^7 entries), generated deterministically from `{shape, n, seed}` by splitmix64.
+//
+// Tolerance. The property's bound is 0.5 % of the largest operand. For lists whose sum is much larger
+// than the largest operand (a million equal entries) that bound is tighter than what ANY implementation
+// built on an exponential with the documented relative error (8.9e-6 per term) can deliver, so the
+// large-scale checks assert the WEAKER of two bounds, in units of the largest operand:
+//     |image - reference| <= max(0.005, 2e-5 * reference)           (4e-5 for the grid integrator,
+// which applies the approximate exponential twice). For sum/max <= 250 this is exactly the property's
+// bound; above, it is a relative bound of 2e-5 on the sum (more than twice the documented error: each
+// term exp(x_i - max) carries a relative error <= 8.9e-6, hence so does their sum; for the running sum of
+// ln_cumsum_exp the relative error of a step is a convex combination of the previous error and the
+// error of the new term, so it never exceeds the per-term error either).
+
+pub mod large {
+    use super::*;
+    use crate::oracles::scale::c141516::{ladder, Sm64};
+    use crate::rung_label_c141516 as rung;
+
+    pub const REL: f64 = 2e-5;
+
+    fn tol(reference: f64, rel: f64) -> f64 {
+        TOL.max(rel * reference)
+    }
+
+    // -----------------------------------------------------------------------
+    // lists
+
+    pub mod lists {
+        use super::*;
+
+        #[derive(Serialize, Deserialize, Debug, Clone, Copy, PartialEq)]
+        pub enum Shape {
+            /// one dominant entry; the other n-1 entries lie d .. d+jitter nats below it (uniformly)
+            Tail { d_milli: u32, jitter_milli: u32 },
+            /// all n entries equal
+            Equal,
+            /// all entries ln(0) except `finite` (1..=300) ones, spread evenly (first and last included),
+            /// which lie within `width_milli` of the top
+            MostlyZero { finite: u16, width_milli: u32 },
+            /// x_i = top - i*step (descending) or top - (n-1-i)*step (ascending): a geometric series
+            Ramp { step_micro: u32, ascending: bool },
+            /// uniform in [top - width, top]
+            Uniform { width_milli: u32 },
+            /// `k` entries equal to the maximum (spread evenly), the others d .. d+0.3 nats below
+            Ties { k: u32, d_milli: u32 },
+        }
+
+        #[derive(Serialize, Deserialize, Debug, Clone, Copy, PartialEq)]
+        pub enum Pos {
+            First,
+            Last,
+            /// index min(p, n-1)
+            At(u32),
+        }
+
+        #[derive(Serialize, Deserialize, Debug, Clone)]
+        pub struct Case {
+            pub shape: Shape,
+            /// list length >= 1
+            pub n: u32,
+            /// log value of the largest entry in thousandths (<= 0)
+            pub top_milli: i64,
+            /// position of the dominant entry (Tail only)
+            pub pos: Pos,
+            /// also run ln_cumsum_exp and check the prefixes
+            pub cumsum: bool,
+            pub seed: u64,
+        }
+
+        pub fn expand(c: &Case) -> Result<Vec<LogProb>, Stop> {
+            let n = c.n as usize;
+            ensure!(n >= 1 && c.top_milli <= 0 && c.top_milli >= -700_000, "harness: bad list case {:?}", c);
+            let top = c.top_milli as f64 / 1000.0;
+            let mut g = Sm64::stream(c.seed, 15);
+            let mut v: Vec<LogProb> = Vec::with_capacity(n);
+            match c.shape {
+                Shape::Tail { d_milli, jitter_milli } => {
+                    ensure!(d_milli >= 1000, "harness: tail closer than 1 nat in {:?}", c);
+                    let (d, j) = (d_milli as f64 / 1000.0, jitter_milli as f64 / 1000.0);
+                    let p = match c.pos {
+                        Pos::First => 0,
+                        Pos::Last => n - 1,
+                        Pos::At(p) => (p as usize).min(n - 1),
+                    };
+                    for i in 0..n {
+                        v.push(LogProb(if i == p { top } else { top - d - j * g.unit() }));
+                    }
+                }
+                Shape::Equal => {
+                    v.resize(n, LogProb(top));
+                }
+                Shape::MostlyZero { finite, width_milli } => {
+                    let f = (finite as usize).clamp(1, 300).min(n);
+                    v.resize(n, LogProb(f64::NEG_INFINITY));
+                    for k in 0..f {
+                        let i = if f == 1 { n / 2 } else { ((k as u128 * (n as u128 - 1)) / (f as u128 - 1)) as usize };
+                        v[i] = LogProb(top - (width_milli as f64 / 1000.0) * g.unit());
+                    }
+                    // the top itself somewhere among them
+                    let i = if f == 1 { n / 2 } else { (((f / 2) as u128 * (n as u128 - 1)) / (f as u128 - 1)) as usize };
+                    v[i] = LogProb(top);
+                }
+                Shape::Ramp { step_micro, ascending } => {
+                    ensure!(step_micro >= 1, "harness: ramp step 0 in {:?}", c);
+                    let st = step_micro as f64 / 1e6;
+                    for i in 0..n {
+                        let k = if ascending { n - 1 - i } else { i };
+                        v.push(LogProb(top - st * k as f64));
+                    }
+                }
+                Shape::Uniform { width_milli } => {
+                    let w = width_milli as f64 / 1000.0;
+                    for _ in 0..n {
+                        v.push(LogProb(top - w * g.unit()));
+                    }
+                }
+                Shape::Ties { k, d_milli } => {
+                    ensure!(d_milli >= 1000, "harness: tail closer than 1 nat in {:?}", c);
+                    let k = (k as usize).clamp(1, n);
+                    let d = d_milli as f64 / 1000.0;
+                    for _ in 0..n {
+                        v.push(LogProb(top - d - 0.3 * g.unit()));
+                    }
+                    for t in 0..k {
+                        let i = if k == 1 { n / 2 } else { ((t as u128 * (n as u128 - 1)) / (k as u128 - 1)) as usize };
+                        v[i] = LogProb(top);
+                    }
+                }
+            }
+            Ok(v)
+        }
+
+        /// should prefix k of an n-list be evaluated? (all of them up to 2^20+1 entries, a sample above)
+        fn sampled(k: usize, n: usize) -> bool {
+            if n <= (1 << 20) + 1 || k < 1024 || k + 1024 >= n || k % 997 == 0 {
+                return true;
+            }
+            // around powers of two
+            let p = (k + 2).next_power_of_two();
+            (p >= k && p - k <= 2) || (k >= p / 2 && k - p / 2 <= 2)
+        }
+
+        pub fn check(c: &Case) -> R {
+            let _published = crate::oracles::scale::c141516::publish(c);
+            let lps = expand(c)?;
+            let n = lps.len();
+            let what = format!("{:?}", c);
+            // ---- reference: plain f64
+            let mut mx = f64::NEG_INFINITY;
+            let mut imax = 0usize;
+            let mut nzero = 0usize;
+            for (i, p) in lps.iter().enumerate() {
+                if **p > mx {
+                    mx = **p;
+                    imax = i;
+                }
+                if **p == f64::NEG_INFINITY {
+                    nzero += 1;
+                }
+            }
+            ensure!(mx.is_finite(), "harness: list without finite entry in {}", what);
+            let mut reference = 0.0f64;
+            let mut nties = 0usize;
+            for p in &lps {
+                reference += (**p - mx).exp();
+                if **p == mx {
+                    nties += 1;
+                }
+            }
+            // closed forms where they exist (also validates the reference summation)
+            match c.shape {
+                Shape::Equal => ensure!((reference - n as f64).abs() <= 1e-9 * n as f64, "harness: reference sum {} of {} equal entries", reference, n),
+                Shape::Ramp { step_micro, .. } => {
+                    let r = (-(step_micro as f64) / 1e6).exp();
+                    let closed = (1.0 - r.powf(n as f64)) / (1.0 - r);
+                    ensure!((reference - closed).abs() <= 1e-7 * closed, "harness: reference sum {} differs from the geometric series {} in {}", reference, closed, what);
+                }
+                _ => {}
+            }
+
+            // ---- n-ary sum
+            let r = *LogProb::ln_sum_exp(&lps);
+            ensure!(!r.is_nan(), "ln_sum_exp of {} entries = NaN ({})", n, what);
+            let img = (r - mx).exp();
+            let err = (img - reference).abs();
+            ensure!(
+                err <= tol(reference, REL),
+                "ln_sum_exp of {} entries (maximum {:e} at index {}, {} entries ln 0): image / largest operand = {:e}, linear sum / largest operand = {:e}, difference {:e} > {:e}; {}",
+                n, mx, imax, nzero, img, reference, err, tol(reference, REL), what
+            );
+            // ln 0 entries are neutral
+            if nzero > 0 {
+                let nz: Vec<LogProb> = lps.iter().cloned().filter(|p| **p != f64::NEG_INFINITY).collect();
+                let r2 = *LogProb::ln_sum_exp(&nz);
+                ensure!(r == r2 || (r - r2).abs() <= NEUTRAL_EPS * r.abs().max(1.0), "ln 0 is not neutral in ln_sum_exp: {} entries ({} of them ln 0) give {:e}, without the ln 0 entries {:e}; {}", n, nzero, r, r2, what);
+            }
+
+            // ---- cumulative sum: every prefix (sampled above 2^20+1 entries)
+            if c.cumsum {
+                let mut rm = f64::NEG_INFINITY;
+                let mut acc = 0.0f64;
+                let mut count = 0usize;
+                let mut prev = f64::NEG_INFINITY;
+                for (k, cs) in LogProb::ln_cumsum_exp(lps.iter().cloned()).take(n + 2).enumerate() {
+                    count += 1;
+                    if k >= n {
+                        continue;
+                    }
+                    let v = *lps[k];
+                    if v > rm {
+                        acc = if rm == f64::NEG_INFINITY { 1.0 } else { acc * (rm - v).exp() + 1.0 };
+                        rm = v;
+                    } else if v != f64::NEG_INFINITY {
+                        acc += (v - rm).exp();
+                    }
+                    let cs = *cs;
+                    ensure!(!cs.is_nan(), "ln_cumsum_exp[{}] = NaN; {}", k, what);
+                    if rm == f64::NEG_INFINITY {
+                        ensure!(cs == f64::NEG_INFINITY, "ln_cumsum_exp[{}] = {} although all entries so far are ln 0; {}", k, cs, what);
+                    } else if sampled(k, n) {
+                        let img = (cs - rm).exp();
+                        let err = (img - acc).abs();
+                        ensure!(
+                            err <= tol(acc, REL),
+                            "ln_cumsum_exp[{}] of {}: image / largest operand so far = {:e}, linear prefix sum / largest = {:e}, difference {:e} > {:e}; {}",
+                            k, n, img, acc, err, tol(acc, REL), what
+                        );
+                        if v == f64::NEG_INFINITY && k > 0 {
+                            ensure!(cs == prev || (cs - prev).abs() <= NEUTRAL_EPS * cs.abs().max(1.0), "ln 0 is not neutral in ln_cumsum_exp: [{}] = {:e}, [{}] = {:e}; {}", k - 1, prev, k, cs, what);
+                        }
+                    }
+                    prev = cs;
+                }
+                ensure!(count == n, "ln_cumsum_exp yields {} values for {} inputs; {}", if count > n { "more than n".to_string() } else { count.to_string() }, n, what);
+            }
+
+            let tail_share = (reference - nties as f64) / reference;
+            let second = lps.iter().map(|p| **p).filter(|&x| x < mx).fold(f64::NEG_INFINITY, f64::max);
+            let gap = mx - second; // distance of the closest non-maximal entry
+            let mut pass = Pass::new(n >= 255);
+            if let Some(l) = rung!("list length", n) {
+                pass.add(l);
+            }
+            pass.add_if(n > (1 << 20) + 1, "list length > 2^20+1");
+            if let Some(l) = rung!("index of the maximum", imax) {
+                pass.add(l);
+            }
+            pass.add_if(imax >= 65536, "index of the maximum >= 65536");
+            pass.add_if(imax == 0 && n >= 255, "maximum first");
+            pass.add_if(imax == n - 1 && n >= 255, "maximum last");
+            if let Some(l) = rung!("number of ln(0) entries", nzero) {
+                pass.add(l);
+            }
+            pass.add_if(nzero >= 65536, "more than 65535 ln(0) entries");
+            if let Some(l) = rung!("entries equal to the maximum", nties) {
+                pass.add(l);
+            }
+            pass.add_if(nties >= 65536, "more than 65535 entries equal to the maximum");
+            pass.add_if(reference <= 250.0, "sum/max <= 250: the property's 0.5 % bound is asserted");
+            pass.add_if(reference > 250.0, "sum/max > 250: relative bound 2e-5 asserted");
+            let tail_visible = reference - nties as f64 > 0.0051 && tail_share > 0.0;
+            pass.add_if(tail_visible && gap >= 11.52, "tail > 0.5 % of the maximum although every tail entry < 1e-5 of it");
+            pass.add_if(tail_visible && gap >= 13.82, "tail > 0.5 % of the maximum although every tail entry < 1e-6 of it");
+            pass.add_if(tail_visible && gap >= 16.12, "tail > 0.5 % of the maximum although every tail entry < 1e-7 of it");
+            pass.add_if(tail_visible && gap >= 18.43, "tail > 0.5 % of the maximum although every tail entry < 1e-8 of it");
+            pass.add_if(tail_visible && gap >= 20.73, "tail > 0.5 % of the maximum although every tail entry < 1e-9 of it");
+            pass.add_if(tail_visible && gap >= 23.03, "tail > 0.5 % of the maximum although every tail entry < 1e-10 of it");
+            pass.add_if(c.cumsum, "ln_cumsum_exp checked");
+            pass.add_if(mx < -50.0, "tiny probabilities (largest < e^-50)");
+            pass.add(match c.shape {
+                Shape::Tail { .. } => "shape: dominant entry + tail",
+                Shape::Equal => "shape: all equal",
+                Shape::MostlyZero { .. } => "shape: mostly ln(0)",
+                Shape::Ramp { ascending: true, .. } => "shape: sorted ascending",
+                Shape::Ramp { ascending: false, .. } => "shape: sorted descending",
+                Shape::Uniform { .. } => "shape: uniform random",
+                Shape::Ties { .. } => "shape: many ties of the maximum",
+            });
+            Ok(pass)
+        }
+
+        fn d_for(n: u64, share: f64) -> u32 {
+            // distance (milli-nats) at which n entries together carry `share` of the maximum
+            let d = ((n.max(2) - 1) as f64 / share).ln().max(1.0);
+            (d * 1000.0).round() as u32
+        }
+
+        const TOPS: [i64; 4] = [0, -2_500, -300_000, -46_000];
+
+        /// list length, index of the maximum, number of ln(0) entries and of ties across the ladder
+        pub fn enumerate(_tier: Tier) -> Box<dyn Iterator<Item = Case>> {
+            let mut v = Vec::new();
+            let mut k = 0u64;
+            let mut push = |v: &mut Vec<Case>, shape: Shape, n: u64, pos: Pos, cumsum: bool| {
+                v.push(Case { shape, n: n as u32, top_milli: TOPS[(k % 4) as usize], pos, cumsum, seed: 0x5eed_0015_0000 + k * 104_729 });
+                k += 1;
+            };
+            for &n in &ladder((1 << 20) + 1) {
+                // (a) dominant entry + tail carrying 2 % (each tail entry far below 0.5 %)
+                let pos = [Pos::First, Pos::Last, Pos::At((n / 2) as u32)][(n % 3) as usize];
+                push(&mut v, Shape::Tail { d_milli: d_for(n, 0.02), jitter_milli: 300 }, n, pos, true);
+                // (b) dense events: all equal
+                push(&mut v, Shape::Equal, n, Pos::First, true);
+                // (c) mostly ln(0)
+                push(&mut v, Shape::MostlyZero { finite: [5u16, 257, 64][(n % 3) as usize], width_milli: 3000 }, n, Pos::First, true);
+                // (d) sorted
+                push(&mut v, Shape::Ramp { step_micro: [4000u32, 50_000, 10][(n % 3) as usize], ascending: n % 2 == 0 }, n, Pos::First, true);
+                // (e) random
+                push(&mut v, Shape::Uniform { width_milli: ((n / 150).max(5) * 1000) as u32 }, n, Pos::First, true);
+                // (f) 255/256/257 ties of the maximum + tail
+                if n >= 511 {
+                    push(&mut v, Shape::Ties { k: 255 + (n % 3) as u32, d_milli: d_for(n, 0.02) }, n, Pos::First, n <= 70_000);
+                }
+            }
+            // index of the maximum across the ladder: maximum at p, list slightly / twice as long
+            for &p in &ladder((1 << 20) + 1) {
+                for n in [p + 1 + p % 3, 2 * p + 7] {
+                    push(&mut v, Shape::Tail { d_milli: d_for(n, 0.02), jitter_milli: 300 }, n, Pos::At(p as u32), false);
+                }
+            }
+            // number of ln(0) entries across the ladder: z entries ln(0) and three finite ones
+            for &z in &ladder((1 << 20) + 1) {
+                push(&mut v, Shape::MostlyZero { finite: 3, width_milli: 2000 }, z + 3, Pos::First, true);
+            }
+            // ties across the ladder (relative bound)
+            for &t in &[511u64, 512, 513, 65_535, 65_536, 65_537] {
+                push(&mut v, Shape::Ties { k: t as u32, d_milli: 3000 }, 3 * t + 1, Pos::First, true);
+            }
+            Box::new(v.into_iter())
+        }
+
+        /// tails at every distance 11.6 .. 22.1 nats (quick) / .. 23.1 (thorough), in steps of 0.25, below the dominant
+        /// entry, long enough to carry ~0.8 % of it: 0.0093 * e^d entries
+        pub fn enumerate_tails(tier: Tier) -> Box<dyn Iterator<Item = Case>> {
+            let dmax = match tier {
+                Tier::Quick => 22_100,
+                Tier::Thorough => 23_100,
+            };
+            let ds: Vec<u32> = (0..).map(|i| 11_600 + 250 * i).take_while(|&d| d <= dmax).collect();
+            let it = ds.into_iter().enumerate().map(|(i, d)| {
+                let n = (0.00926 * (d as f64 / 1000.0).exp()).ceil() as u64 + 1;
+                let pos = [Pos::First, Pos::Last, Pos::At((n / 3) as u32)][i % 3];
+                Case { shape: Shape::Tail { d_milli: d, jitter_milli: 300 }, n: n as u32, top_milli: TOPS[i % 4], pos, cumsum: n <= 12_000_000, seed: 0x7a11_0015_0000 + i as u64 * 7919 }
+            });
+            Box::new(it)
+        }
+
+        pub fn strat(tier: Tier) -> BoxedStrategy<Case> {
+            let nmax: u64 = match tier {
+                Tier::Quick => (1 << 20) + 1,
+                Tier::Thorough => (1 << 22) + 1,
+            };
+            let l = ladder(nmax);
+            let nl = l.len();
+            let size = prop_oneof![3 => (0..nl, -2i64..=2).prop_map(move |(i, d)| (l[i] as i64 + d).max(1) as u64), 1 => 255u64..=nmax];
+            (size, 0u8..7, any::<u16>(), any::<u16>(), prop_oneof![2 => Just(0i64), 2 => -5_000i64..=0, 2 => -650_000i64..=-5_000], any::<bool>(), any::<u64>())
+                .prop_map(|(n, which, a, b, top_milli, cumsum, seed)| {
+                    let share = [0.006, 0.02, 0.2, 2.0, 100.0][(a % 5) as usize];
+                    let pos = match b % 4 {
+                        0 => Pos::First,
+                        1 => Pos::Last,
+                        _ => Pos::At(crate::engine::gen::idx(b, n as usize - 1) as u32),
+                    };
+                    let shape = match which {
+                        0 | 1 => Shape::Tail { d_milli: d_for(n, share), jitter_milli: (a % 1500) as u32 },
+                        2 => Shape::Equal,
+                        3 => Shape::MostlyZero { finite: 1 + a % 300, width_milli: (b % 20_000) as u32 },
+                        4 => Shape::Ramp { step_micro: 1 + (a as u32 * 17) % 200_000, ascending: b % 2 == 0 },
+                        5 => Shape::Uniform { width_milli: ((n / 150).max(5) * 1000) as u32 + (a as u32 % 50_000) },
+                        _ => Shape::Ties { k: 1 + (a as u32 % 300), d_milli: d_for(n, share) },
+                    };
+                    Case { shape, n: n as u32, top_milli, pos, cumsum, seed }
+                })
+                .boxed()
+        }
+    }
+
+    // -----------------------------------------------------------------------
+    // integration grids
+
+    pub mod integrate {
+        use super::*;
+
+        #[derive(Serialize, Deserialize, Debug, Clone, Copy, PartialEq)]
+        pub enum Rule {
+            Trapezoid,
+            /// n must be odd
+            Simpson,
+            /// ln_trapezoidal_integrate_grid_exp on a jittered increasing grid (jitter in 1/1000 of a step, < 1000)
+            Grid { jitter_milli: u16 },
+            /// ln_trapezoidal_integrate_exp::<f32, _>
+            TrapezoidF32,
+            /// ln_simpsons_integrate_exp::<f32, _>
+            SimpsonF32,
+        }
+
+        #[derive(Serialize, Deserialize, Debug, Clone, Copy, PartialEq)]
+        pub enum Dens {
+            /// ln f = c/1000
+            Const { c_milli: i32 },
+            /// narrow Gaussian bump of height 1 (sigma = sigma_steps_milli/1000 grid steps, centre at
+            /// centre/65536 of the interval) on a constant floor; all n floor values together carry
+            /// floor_share_milli/1000 of the bump's height:  f(x) = exp(-z^2/2) + share/n
+            Peak { centre: u16, sigma_steps_milli: u32, floor_share_milli: u32 },
+            /// Gaussian with sigma = (b-a)/div centred in the interval (smooth, every node matters)
+            Wide { div: u8 },
+        }
+
+        #[derive(Serialize, Deserialize, Debug, Clone)]
+        pub struct Case {
+            pub rule: Rule,
+            pub dens: Dens,
+            /// number of grid points >= 3
+            pub n: u32,
+            /// interval: 0 = [0,1], 1 = [-2,6], 2 = [10,10.5], 3 = [-1024, 1024]
+            pub interval: u8,
+        }
+
+        fn interval(c: &Case) -> (f64, f64) {
+            match c.interval % 4 {
+                0 => (0.0, 1.0),
+                1 => (-2.0, 6.0),
+                2 => (10.0, 10.5),
+                _ => (-1024.0, 1024.0),
+            }
+        }
+
+        fn ln_f(c: &Case, a: f64, b: f64, x: f64) -> f64 {
+            match c.dens {
+                Dens::Const { c_milli } => c_milli as f64 / 1e3,
+                Dens::Peak { centre, sigma_steps_milli, floor_share_milli } => {
+                    let h = (b - a) / (c.n as f64 - 1.0);
+                    let mu = a + (b - a) * (centre as f64 / 65536.0);
+                    let z = (x - mu) / (h * sigma_steps_milli as f64 / 1000.0);
+                    let lg = -0.5 * z * z;
+                    if floor_share_milli == 0 {
+                        return lg;
+                    }
+                    let lfloor = (floor_share_milli as f64 / 1000.0 / c.n as f64).ln();
+                    let (hi, lo) = if lg >= lfloor { (lg, lfloor) } else { (lfloor, lg) };
+                    hi + (lo - hi).exp().ln_1p()
+                }
+                Dens::Wide { div } => {
+                    let s = (b - a) / div.max(1) as f64;
+                    let z = (x - 0.5 * (a + b)) / s;
+                    -0.5 * z * z - s.ln() - 0.5 * (2.0 * std::f64::consts::PI).ln()
+                }
+            }
+        }
+
+        /// compare `r` with exp(ln_factor) * sum_i exp(terms[i]), in units of the largest term
+        fn compare(what: &str, c: &Case, r: f64, terms: &[f64], ln_factor: f64, rel: f64) -> Result<(f64, f64), Stop> {
+            ensure!(!r.is_nan(), "{} = NaN for {:?}", what, c);
+            ensure!(terms.iter().all(|t| !t.is_nan() && *t != f64::INFINITY), "harness: reference operand NaN/inf for {:?}", c);
+            let mx = terms.iter().cloned().fold(f64::NEG_INFINITY, f64::max);
+            ensure!(mx.is_finite(), "harness: density zero at every node for {:?}", c);
+            let reference: f64 = terms.iter().map(|t| (t - mx).exp()).sum();
+            let img = (r - ln_factor - mx).exp();
+            let err = (img - reference).abs();
+            ensure!(
+                err <= tol(reference, rel),
+                "{} = {:e}; plain f64 quadrature on the same {} nodes gives {:e}; in units of the largest quadrature operand: {:e} vs {:e}, difference {:e} > {:e}; {:?}",
+                what, r, terms.len(), reference.ln() + mx + ln_factor, img, reference, err, tol(reference, rel), c
+            );
+            // share of the terms that are individually below 1e-5 of the largest one
+            let small: f64 = terms.iter().map(|t| t - mx).filter(|&d| d < -11.52).map(|d| d.exp()).sum();
+            Ok((reference, small))
+        }
+
+        pub fn check(c: &Case) -> R {
+            let _published = crate::oracles::scale::c141516::publish(c);
+            let n = c.n as usize;
+            ensure!(n >= 3 && n <= 2_100_000, "harness: bad number of grid points in {:?}", c);
+            let (a, b) = interval(c);
+            let weight = |i: usize, simpson: bool| -> f64 {
+                if i == 0 || i == n - 1 {
+                    1.0
+                } else if !simpson {
+                    2.0
+                } else if i % 2 == 1 {
+                    4.0
+                } else {
+                    2.0
+                }
+            };
+            let (reference, small) = match c.rule {
+                Rule::Trapezoid | Rule::Simpson => {
+                    let simpson = c.rule == Rule::Simpson;
+                    ensure!(!simpson || n % 2 == 1, "harness: Simpson with even n in {:?}", c);
+                    let density = |_i: usize, x: f64| LogProb(ln_f(c, a, b, x));
+                    let r = if simpson { *LogProb::ln_simpsons_integrate_exp(density, a, b, n) } else { *LogProb::ln_trapezoidal_integrate_exp(density, a, b, n) };
+                    let step = (b - a) / (n as f64 - 1.0);
+                    let terms: Vec<f64> = (0..n).map(|i| ln_f(c, a, b, if i == n - 1 { b } else { a + step * i as f64 }) + weight(i, simpson).ln()).collect();
+                    let fac = if simpson { (b - a).ln() - (3.0 * (n as f64 - 1.0)).ln() } else { (b - a).ln() - (2.0 * (n as f64 - 1.0)).ln() };
+                    compare(if simpson { "ln_simpsons_integrate_exp" } else { "ln_trapezoidal_integrate_exp" }, c, r, &terms, fac, REL)?
+                }
+                Rule::TrapezoidF32 | Rule::SimpsonF32 => {
+                    let simpson = c.rule == Rule::SimpsonF32;
+                    ensure!(!simpson || n % 2 == 1, "harness: Simpson with even n in {:?}", c);
+                    ensure!(!matches!(c.dens, Dens::Peak { .. }) && n <= 70_001, "harness: f32 grid with a narrow density / too many points in {:?}", c);
+                    let (a32, b32) = (a as f32, b as f32);
+                    let density = |_i: usize, x: f32| LogProb(ln_f(c, a, b, x as f64));
+                    let r = if simpson { *LogProb::ln_simpsons_integrate_exp(density, a32, b32, n) } else { *LogProb::ln_trapezoidal_integrate_exp(density, a32, b32, n) };
+                    let step = (b32 - a32) / (n as f32 - 1.0);
+                    let terms: Vec<f64> = (0..n).map(|i| ln_f(c, a, b, if i == n - 1 { b32 as f64 } else if i == 0 { a32 as f64 } else { (a32 + step * i as f32) as f64 }) + weight(i, simpson).ln()).collect();
+                    let w = (b32 - a32) as f64;
+                    let fac = if simpson { w.ln() - (3.0 * (n as f64 - 1.0)).ln() } else { w.ln() - (2.0 * (n as f64 - 1.0)).ln() };
+                    compare(if simpson { "ln_simpsons_integrate_exp::<f32>" } else { "ln_trapezoidal_integrate_exp::<f32>" }, c, r, &terms, fac, REL)?
+                }
+                Rule::Grid { jitter_milli } => {
+                    ensure!(jitter_milli < 1000, "harness: grid jitter >= one step in {:?}", c);
+                    let step = (b - a) / (n as f64 - 1.0);
+                    let mut g = Sm64::stream(c.n as u64 * 31 + c.interval as u64, 16);
+                    let grid: Vec<f64> = (0..n).map(|i| if i == 0 { a } else if i == n - 1 { b } else { a + step * (i as f64 + (jitter_milli as f64 / 1000.0) * (g.unit() - 0.5)) }).collect();
+                    ensure!(grid.windows(2).all(|w| w[0] < w[1]), "harness: grid not increasing in {:?}", c);
+                    let density = |_i: usize, x: f64| LogProb(ln_f(c, a, b, x));
+                    let r = *LogProb::ln_trapezoidal_integrate_grid_exp(density, &grid);
+                    let mut terms = Vec::with_capacity(n - 1);
+                    let mut l0 = ln_f(c, a, b, grid[0]);
+                    for i in 1..n {
+                        let l1 = ln_f(c, a, b, grid[i]);
+                        let (hi, lo) = (l0.max(l1), l0.min(l1));
+                        terms.push(if hi == f64::NEG_INFINITY { hi } else { hi + (lo - hi).exp().ln_1p() - 2f64.ln() + (grid[i] - grid[i - 1]).ln() });
+                        l0 = l1;
+                    }
+                    compare("ln_trapezoidal_integrate_grid_exp", c, r, &terms, 0.0, 2.0 * REL)?
+                }
+            };
+
+            let mut pass = Pass::new(n >= 255);
+            if let Some(l) = rung!("grid points", n) {
+                pass.add(l);
+            }
+            pass.add_if(n >= 2_000_000, "grid points >= 2 million");
+            pass.add(match c.rule {
+                Rule::Trapezoid => "trapezoid",
+                Rule::Simpson => "simpson",
+                Rule::Grid { .. } => "trapezoid on grid",
+                Rule::TrapezoidF32 => "trapezoid, f32 grid",
+                Rule::SimpsonF32 => "simpson, f32 grid",
+            });
+            pass.add(match c.dens {
+                Dens::Const { .. } => "constant density",
+                Dens::Peak { .. } => "narrow peak on a low floor",
+                Dens::Wide { .. } => "wide gaussian",
+            });
+            pass.add_if(reference <= 250.0, "sum/max <= 250: the property's 0.5 % bound is asserted");
+            pass.add_if(reference > 250.0, "sum/max > 250: relative bound asserted");
+            pass.add_if(small > 0.0051 && reference <= 250.0, "operands individually < 1e-5 of the largest carry > 0.5 % of it");
+            Ok(pass)
+        }
+
+        pub fn enumerate(tier: Tier) -> Box<dyn Iterator<Item = Case>> {
+            let mut v = Vec::new();
+            let mut k = 0usize;
+            let mut ns = ladder((1 << 20) + 1);
+            ns.extend([2_000_000, 2_000_001]);
+            for &n in &ns {
+                let odd = n % 2 == 1;
+                let peak = |k: usize| Dens::Peak { centre: [32_768u16, 100, 65_400, 21_845][k % 4], sigma_steps_milli: [600u32, 2_000, 8_000, 20_000][(k / 2) % 4], floor_share_milli: [20u32, 8, 300, 1500][(k / 3) % 4] };
+                let smooth = |k: usize| if k % 2 == 0 { Dens::Const { c_milli: [-2_300i32, 0, -120_000][k % 3] } } else { Dens::Wide { div: [4u8, 10, 40][k % 3] } };
+                let heavy = n > 140_000 && tier == Tier::Quick;
+                // narrow peak on a low floor: every rule
+                v.push(Case { rule: Rule::Trapezoid, dens: peak(k), n: n as u32, interval: (k % 4) as u8 });
+                k += 1;
+                if odd {
+                    v.push(Case { rule: Rule::Simpson, dens: peak(k), n: n as u32, interval: (k % 4) as u8 });
+                    k += 1;
+                }
+                v.push(Case { rule: Rule::Grid { jitter_milli: [0u16, 400, 900][k % 3] }, dens: peak(k), n: n as u32, interval: (k % 4) as u8 });
+                k += 1;
+                // smooth densities (every node matters): one rule per value above 140 000 in the quick tier
+                let rules: Vec<Rule> = if odd { vec![Rule::Simpson, Rule::Trapezoid, Rule::Grid { jitter_milli: 500 }] } else { vec![Rule::Trapezoid, Rule::Grid { jitter_milli: 500 }] };
+                for (ri, &rule) in rules.iter().enumerate() {
+                    if heavy && ri != k % rules.len() {
+                        continue;
+                    }
+                    v.push(Case { rule, dens: smooth(k), n: n as u32, interval: (k % 4) as u8 });
+                    k += 1;
+                }
+                if n <= 70_000 {
+                    v.push(Case { rule: Rule::TrapezoidF32, dens: smooth(k), n: n as u32, interval: (k % 2) as u8 });
+                    k += 1;
+                    if odd {
+                        v.push(Case { rule: Rule::SimpsonF32, dens: smooth(k + 1), n: n as u32, interval: (k % 2) as u8 });
+                        k += 1;
+                    }
+                }
+            }
+            Box::new(v.into_iter())
+        }
+
+        pub fn strat(tier: Tier) -> BoxedStrategy<Case> {
+            let nmax: u64 = match tier {
+                Tier::Quick => 600_000,
+                Tier::Thorough => 2_000_001,
+            };
+            let l = ladder(nmax);
+            let nl = l.len();
+            let size = prop_oneof![3 => (0..nl, -2i64..=2).prop_map(move |(i, d)| (l[i] as i64 + d).max(3) as u64), 1 => 255u64..=nmax];
+            let dens = prop_oneof![
+                2 => (-200_000i32..=3_000).prop_map(|c_milli| Dens::Const { c_milli }),
+                4 => (any::<u16>(), 500u32..=25_000, prop_oneof![Just(0u32), 6u32..=50, 50u32..=3_000]).prop_map(|(centre, sigma_steps_milli, floor_share_milli)| Dens::Peak { centre, sigma_steps_milli, floor_share_milli }),
+                2 => (1u8..=60).prop_map(|div| Dens::Wide { div }),
+            ];
+            (size, dens, 0u8..5, 0u16..1000, 0u8..4)
+                .prop_map(|(n, dens, which, jitter_milli, interval)| {
+                    let mut n = n;
+                    let narrow = matches!(dens, Dens::Peak { .. });
+                    let rule = match which {
+                        0 => Rule::Trapezoid,
+                        1 => Rule::Simpson,
+                        2 => Rule::Grid { jitter_milli },
+                        3 if !narrow => Rule::TrapezoidF32,
+                        4 if !narrow => Rule::SimpsonF32,
+                        _ => Rule::Grid { jitter_milli: 0 },
+                    };
+                    if matches!(rule, Rule::TrapezoidF32 | Rule::SimpsonF32) {
+                        n = n.min(70_000);
+                    }
+                    if matches!(rule, Rule::Simpson | Rule::SimpsonF32) && n % 2 == 0 {
+                        n += 1;
+                    }
+                    let interval = if matches!(rule, Rule::TrapezoidF32 | Rule::SimpsonF32) { interval % 2 } else { interval };
+                    Case { rule, dens, n: n as u32, interval }
+                })
+                .boxed()
+        }
+    }
+}
+
 pub fn property() -> Property {
     Property {
         id: "C15",
-        rule: "binary: pairs of LogProbs (ln 0, ln 1, log-uniform over [1e-200,1], fine-grained near ln 1, some below 1e-200; independent, equal, a few units apart, differences straddling the switch point 0.693 of ln_1m_exp and the fastexp cut-off 500) through ln_add_exp (both orders), ln_sub_exp (larger first), ln_one_minus_exp; lists: 0..=200 LogProbs (narrow band, wide band, all equal, with ln 0 entries) through ln_sum_exp and ln_cumsum_exp; integrate: trapezoid / Simpson (odd n) with n in 3..=201 points and trapezoid on random increasing grids over constant, Gaussian, exponential and Beta-like log-densities; convert: every composition of the Prob/LogProb/PHRED conversions on p in {0} u [1e-200,1] and PHRED in [0,2000] u {inf}, Prob::checked on boundary, neighbouring, special and random values. Oracle: the same formula in plain f64, both sides divided by the largest operand (|exp(result - lmax) - sum exp(l_i - lmax)| <= 0.005, the property's 0.5 % of the largest operand, evaluated without underflow); ln 0 neutral (unchanged within 1e-12 in log space); never NaN; conversions through the fast exponential within 0.5 % relative, all others within 1e-9; checked() accepts exactly [0,1]. Non-trivial: binary = two finite operands less than 40 apart; lists = length >= 3 with >= 2 finite entries; integrate = every case; convert = 0 < p < 1. Distinct = distinct serialised case.",
+        rule: "binary: pairs of LogProbs (ln 0, ln 1, log-uniform over [1e-200,1], fine-grained near ln 1, some below 1e-200; independent, equal, a few units apart, differences straddling the switch point 0.693 of ln_1m_exp and the fastexp cut-off 500) through ln_add_exp (both orders), ln_sub_exp (larger first), ln_one_minus_exp; lists: 0..=200 LogProbs (narrow band, wide band, all equal, with ln 0 entries) through ln_sum_exp and ln_cumsum_exp; integrate: trapezoid / Simpson (odd n) with n in 3..=201 points and trapezoid on random increasing grids over constant, Gaussian, exponential and Beta-like log-densities; convert: every composition of the Prob/LogProb/PHRED conversions on p in {0} u [1e-200,1] and PHRED in [0,2000] u {inf}, Prob::checked on boundary, neighbouring, special and random values. Oracle: the same formula in plain f64, both sides divided by the largest operand (|exp(result - lmax) - sum exp(l_i - lmax)| <= 0.005, the property's 0.5 % of the largest operand, evaluated without underflow); ln 0 neutral (unchanged within 1e-12 in log space); never NaN; conversions through the fast exponential within 0.5 % relative, all others within 1e-9; checked() accepts exactly [0,1]. Non-trivial: binary = two finite operands less than 40 apart; lists = length >= 3 with >= 2 finite entries; integrate = every case; convert = 0 < p < 1. Distinct = distinct serialised case. LARGE-SCALE (C15/large-*): cases are {shape, n, top, position, seed} / {rule, density, n, interval}, expanded deterministically by splitmix64. Lists: length n, index of the maximum, number of ln(0) entries and number of entries equal to the maximum on every rung 255..257 .. 2^20-1..2^20+1 (and 70000), shapes: dominant entry + tail, all equal, mostly ln(0), sorted ascending/descending (closed form: geometric series), uniform random, many ties; ln_sum_exp and every prefix of ln_cumsum_exp (running reference sum). Tails: one dominant entry plus 0.0093*e^d entries d..d+0.3 nats below it (they carry ~0.8 % of it) for every d = 11.6, 11.85, .. 22.1 (quick; up to 3.7e7 entries) / .. 23.1 (thorough; 1e8 entries). Integration: trapezoid, Simpson (odd n), trapezoid on a jittered grid, and the f32 instantiations, n on every rung up to 2^20+1 and 2 000 000 / 2 000 001, densities: narrow Gaussian bump (0.6-20 grid steps wide) on a floor whose n values together carry 0.8-150 % of the bump, constant, wide Gaussian. Oracle: the same sums in plain f64; asserted bound in units of the largest operand: max(0.005, 2e-5 * reference) (4e-5 for the grid integrator), i.e. the bound of the property whenever sum/max <= 250 and a relative 2e-5 above. Non-trivial there: n >= 255.",
         assumptions: &[
             "ln_sub_exp is only called with first operand >= second (it asserts this: a negative probability has no logarithm)",
             "lists have at most 200 entries and integration grids at most 201 points: the accumulated error of the fast exponential (n-1)*8.9e-6 then stays inside the stated 0.5 %",
             "integration bounds satisfy a < b, grids are strictly increasing, Simpson is called with odd n (it asserts this)",
             "conversions through the fast exponential are checked for p >= 1e-200 (below e^-500 the fast exponential documents a flush to zero)",
+            "large-scale sub-checks assert max(0.005, 2e-5 * sum/max) of the largest operand: for sums far above the largest operand the absolute bound of the property is tighter than the documented per-term accuracy (8.9e-6) of the fast exponential allows, so only the weaker relative bound is demanded there",
+            "large-scale tails need 0.005*e^d entries at distance d: d <= 22.1 nats (quick) / 23.1 (thorough); a cut-off beyond e^-23.1 (1e-10) would need more than 1e8 entries per list",
+            "f32 integration grids are used with constant and wide Gaussian densities only (node positions carry f32 rounding)",
         ],
         subs: vec![
             Box::new(PropSub {
@@ -951,6 +1588,12 @@ pub fn property() -> Property {
                 must_reach: &["p = 0", "p = 1", "PHRED +inf", "checked() rejects", "checked() accepts", "checked(NaN)", "checked(-0.0)", "checked(nearest outside value)", "checked(boundary inside)", "checked(+-inf)"],
                 watch: false,
             }),
+            // ---- large-scale sub-checks (threshold ladders for list length, index of the maximum, ln(0) entries, ties, grid points)
+            Box::new(ExhSub { name: "C15/large-lists", enumerate: large::lists::enumerate, check: large::lists::check, must_reach: &["list length in 255..257", "list length in 511..513", "list length in 1023..1025", "list length in 4095..4097", "list length in 8191..8193", "list length in 16383..16385", "list length in 32767..32769", "list length in 65535..65537", "list length in 131071..131073", "list length in 2^19-1..2^19+1", "list length in 2^20-1..2^20+1", "list length ~70000", "index of the maximum in 255..257", "index of the maximum in 511..513", "index of the maximum in 1023..1025", "index of the maximum in 4095..4097", "index of the maximum in 8191..8193", "index of the maximum in 16383..16385", "index of the maximum in 32767..32769", "index of the maximum in 65535..65537", "index of the maximum in 131071..131073", "index of the maximum in 2^19-1..2^19+1", "index of the maximum in 2^20-1..2^20+1", "index of the maximum ~70000", "number of ln(0) entries in 255..257", "number of ln(0) entries in 511..513", "number of ln(0) entries in 1023..1025", "number of ln(0) entries in 4095..4097", "number of ln(0) entries in 8191..8193", "number of ln(0) entries in 16383..16385", "number of ln(0) entries in 32767..32769", "number of ln(0) entries in 65535..65537", "number of ln(0) entries in 131071..131073", "number of ln(0) entries in 2^19-1..2^19+1", "number of ln(0) entries in 2^20-1..2^20+1", "number of ln(0) entries ~70000", "index of the maximum >= 65536", "more than 65535 ln(0) entries", "entries equal to the maximum in 255..257", "entries equal to the maximum in 511..513", "entries equal to the maximum in 65535..65537", "more than 65535 entries equal to the maximum", "maximum first", "maximum last", "ln_cumsum_exp checked", "sum/max <= 250: the property's 0.5 % bound is asserted", "sum/max > 250: relative bound 2e-5 asserted", "tiny probabilities (largest < e^-50)", "shape: dominant entry + tail", "shape: all equal", "shape: mostly ln(0)", "shape: sorted ascending", "shape: sorted descending", "shape: uniform random", "shape: many ties of the maximum", "tail > 0.5 % of the maximum although every tail entry < 1e-5 of it", "tail > 0.5 % of the maximum although every tail entry < 1e-6 of it", "tail > 0.5 % of the maximum although every tail entry < 1e-7 of it"] }),
+            Box::new(ExhSub { name: "C15/large-tails", enumerate: large::lists::enumerate_tails, check: large::lists::check, must_reach: &["tail > 0.5 % of the maximum although every tail entry < 1e-5 of it", "tail > 0.5 % of the maximum although every tail entry < 1e-6 of it", "tail > 0.5 % of the maximum although every tail entry < 1e-7 of it", "tail > 0.5 % of the maximum although every tail entry < 1e-8 of it", "tail > 0.5 % of the maximum although every tail entry < 1e-9 of it", "list length > 2^20+1", "index of the maximum >= 65536", "maximum first", "maximum last", "ln_cumsum_exp checked"] }),
+            Box::new(ExhSub { name: "C15/large-integrate", enumerate: large::integrate::enumerate, check: large::integrate::check, must_reach: &["grid points in 255..257", "grid points in 511..513", "grid points in 1023..1025", "grid points in 4095..4097", "grid points in 8191..8193", "grid points in 16383..16385", "grid points in 32767..32769", "grid points in 65535..65537", "grid points in 131071..131073", "grid points in 2^19-1..2^19+1", "grid points in 2^20-1..2^20+1", "grid points ~70000", "grid points >= 2 million", "trapezoid", "simpson", "trapezoid on grid", "trapezoid, f32 grid", "simpson, f32 grid", "constant density", "narrow peak on a low floor", "wide gaussian", "operands individually < 1e-5 of the largest carry > 0.5 % of it", "sum/max <= 250: the property's 0.5 % bound is asserted", "sum/max > 250: relative bound asserted"] }),
+            Box::new(PropSub { name: "C15/large-lists-random", quick: 960, thorough: 8_000, shards_quick: 16, shards_thorough: 16, strat: large::lists::strat, check: large::lists::check, must_reach: &["ln_cumsum_exp checked", "index of the maximum >= 65536", "shape: dominant entry + tail", "shape: all equal", "shape: mostly ln(0)"], watch: true }),
+            Box::new(PropSub { name: "C15/large-integrate-random", quick: 960, thorough: 8_000, shards_quick: 16, shards_thorough: 16, strat: large::integrate::strat, check: large::integrate::check, must_reach: &["trapezoid", "simpson", "trapezoid on grid", "narrow peak on a low floor"], watch: true }),
         ],
     }
 }
